@@ -1,4 +1,5 @@
-import SqlgrepModel.Lemmas.AggFollowSim
+import SqlgrepModel.Lemmas.AggFollowJoin
+import SqlgrepModel.Lemmas.AggFollowExec
 import SqlgrepModel.Lemmas.FollowBridge
 /-
 C11 — incremental (tail -f) results equal a batch run over the same prefix.
@@ -10,6 +11,9 @@ emitted for the k-th line are exactly the rows by which the batch output over k 
 output over k−1 lines. Part 2 (aggregates, end of this file): the table shown after the k-th update+result equals
 the batch result over the first k lines — from the aggregation refinement (Lemmas/Agg*.lean): `execute_result` keeps
 the coupling between state and per-group rows (`result_repeatable`), and the table is a function of those rows alone.
+The aggregate half is stated twice: at engine level over `followRun` (`follow_eq_batch_prefix`, with the k-th row that
+WHERE rejects in `follow_rejected_row_changes_nothing`), and over the EXECUTED loops `runFollowAll` / `runBatch`
+(`follow_kth_line_eq_batch_prefix`, `follow_last_shown_is_batch_table`), linked by `follow_run_is_engine_steps`.
 -/
 namespace Sqlgrep.Props.C11
 open Sqlgrep
@@ -161,7 +165,10 @@ time (update + result each), then a k-th row `env` that WHERE admits — the tab
 batch run (update only per row, one result at the end) over `pre ++ [env]`. Proved by direct simulation of the two
 states (no reference to the specification, so it also covers the finding classes D10/D15). Hypotheses: both runs got
 that far without an evaluation error, and the GROUP BY keys seen are exact (equal in the value order ⇒ identical; with
-`0.0` and `-0.0` as keys the two modes may show different representatives of the group). -/
+`0.0` and `-0.0` as keys the two modes may show different representatives of the group: D60 below).
+This is the case "the k-th row is shown" (`hupd : … = .ok (sf1, true)`); the other case is
+`follow_rejected_row_changes_nothing`, and both cases over the executed loops (with lines that are not admitted) are
+`follow_kth_line_eq_batch_prefix`. Statements WITH a LIMIT are outside this theorem. -/
 theorem follow_eq_batch_prefix {O : Oracles} {q : AggStmt} (hlim : q.limit = none) (pre : List Env) (env : Env)
     {sf sf1 sf2 sb : AggState} {out : RowOut}
     (hfollow : followRun O q pre {} = .ok sf) (hupd : aggUpdateRow O q sf env = .ok (sf1, true))
@@ -207,6 +214,133 @@ theorem follow_eq_batch_prefix_via_spec {O : Oracles} {q : AggStmt} (hwf : StmtW
   rw [hsb]
   exact follow_table_eq_batch hwf hlim pre env hfollow hupd hres hsb hspec hclass
 
+/-! ### the k-th line that shows nothing, and the executed loops -/
+
+/-- the k-th row is rejected by WHERE: follow mode shows nothing for it and keeps its state (so the last table shown
+stays the last table shown), and the batch run over the first k rows IS the batch run over the first k−1 rows — the
+batch table is unchanged -/
+theorem follow_rejected_row_changes_nothing {O : Oracles} {q : AggStmt} (pre : List Env) (env : Env) (sf : AggState)
+    (h : passes O q env = some false) :
+    followStep O q sf env = .ok (sf, none) ∧ aggRun O q (pre ++ [env]) {} = aggRun O q pre {} :=
+  rejected_row_changes_nothing pre env sf h
+
+/-- **`followRun` is the executed follow loop.** `runFollowAll` is the function the compiled driver runs for a `followi`
+case (`FollowFileExecutor::execute`: per delivered line the flag, the line count, `executeLine` with update + result, the
+printer). For an aggregate statement without join and LIMIT it feeds exactly the rows of the admitted lines
+(`followEnvs`), in order, through `followStep`; prints the tables `followStep` returned (`followTables` = `followRun`
+plus those tables: `followTables_state`), and counts every line. -/
+theorem follow_run_is_engine_steps (O : Oracles) (qy : Query) (q : AggStmt) (hq : qy.stmt = .aggregate q)
+    (hj : qy.join = none) (hlim : q.limit = none) (lines : List Line) {st : AggState} {ts : List RowOut}
+    (h : followTables O q (followEnvs qy.table lines) {} = .ok (st, ts)) :
+    runFollowAll O qy none lines = { printed := ts.flatMap (fun r => printResult r true), totalLines := lines.length } ∧
+    followRun O q (followEnvs qy.table lines) {} = .ok st :=
+  ⟨runFollowAll_agg O qy q hq hj hlim lines h, followRun_of_tables h⟩
+
+/-- and conversely: an executed follow run that reports no failure went through every engine step -/
+theorem follow_run_without_failure_ran_every_step (O : Oracles) (qy : Query) (q : AggStmt) (hq : qy.stmt = .aggregate q)
+    (hj : qy.join = none) (hlim : q.limit = none) (lines : List Line)
+    (h : hasFailed (runFollowAll O qy none lines) = false) :
+    ∃ st ts, followTables O q (followEnvs qy.table lines) {} = .ok (st, ts) :=
+  runFollowAll_agg_ok O qy q hq hj hlim lines h
+
+/-- **C11, aggregate half, over the executed loops; every k-th line.** `runFollowAll` over the first k delivered lines and
+`runBatch` over the same lines as one file; neither reports a failure; the GROUP BY keys seen are exact; no LIMIT, no JOIN.
+* The k-th line is SHOWN (`lineShown`: it is admitted and WHERE admits its row): what follow mode prints for it — after
+  everything it printed for the first k−1 lines — is exactly what the batch run over the first k lines prints.
+* The k-th line is NOT shown (not admitted, or rejected by WHERE): follow mode prints nothing for it, and the batch run
+  over the first k lines prints what the batch run over the first k−1 lines prints — the table is unchanged.
+In both cases the follow run over the first k−1 lines reports no failure either, so the statement applies to every
+earlier line as well. -/
+theorem follow_kth_line_eq_batch_prefix (O : Oracles) (qy : Query) (q : AggStmt) (hq : qy.stmt = .aggregate q)
+    (hj : qy.join = none) (hlim : q.limit = none) (joined : List FileLine) (pre : List Line) (l : Line)
+    (hf : hasFailed (runFollowAll O qy none (pre ++ [l])) = false)
+    (hb : hasFailed (runBatch O qy joined [asFile (pre ++ [l])] none) = false)
+    (hex : KeysExact (groupKeysOf O q (followEnvs qy.table (pre ++ [l])))) :
+    hasFailed (runFollowAll O qy none pre) = false ∧
+    (lineShown O qy q l →
+      (runFollowAll O qy none (pre ++ [l])).printed =
+        (runFollowAll O qy none pre).printed ++ (runBatch O qy joined [asFile (pre ++ [l])] none).printed) ∧
+    (¬ lineShown O qy q l →
+      (runFollowAll O qy none (pre ++ [l])).printed = (runFollowAll O qy none pre).printed ∧
+      (runBatch O qy joined [asFile (pre ++ [l])] none).printed = (runBatch O qy joined [asFile pre] none).printed ∧
+      hasFailed (runBatch O qy joined [asFile pre] none) = false) :=
+  follow_exec_step O qy q hq hj hlim joined pre l hf hb hex
+
+/-- **the last table shown** after any number of lines is the batch table over those lines: the follow output ends with
+exactly the batch run's output — or follow mode has printed nothing at all, because no line so far was shown -/
+theorem follow_last_shown_is_batch_table (O : Oracles) (qy : Query) (q : AggStmt) (hq : qy.stmt = .aggregate q)
+    (hj : qy.join = none) (hlim : q.limit = none) (joined : List FileLine) (lines : List Line)
+    (hf : hasFailed (runFollowAll O qy none lines) = false)
+    (hb : hasFailed (runBatch O qy joined [asFile lines] none) = false)
+    (hex : KeysExact (groupKeysOf O q (followEnvs qy.table lines))) :
+    (∃ earlier, (runFollowAll O qy none lines).printed = earlier ++ (runBatch O qy joined [asFile lines] none).printed) ∨
+    ((runFollowAll O qy none lines).printed = [] ∧ ∀ l ∈ lines, ¬ lineShown O qy q l) :=
+  follow_exec_last O qy q hq hj hlim joined lines hf hb hex
+
+/-! ### follow mode over a JOIN -/
+
+/-- for an aggregate statement over a JOIN the executed per-line step (default config) sends the rows of the line's join
+partners (`lineEnvs`, which is the nested loop's `rowsOf`: `Props.C05.join_refines_nested_loop`) one by one through
+update + result and concatenates the results -/
+theorem agg_follow_join_step (O : Oracles) (qy : Query) (q : AggStmt) (idx : JoinIndex) (es : EngineState) (l : Line)
+    (hq : qy.stmt = .aggregate q) (hadm : anyResult l.row = true) :
+    executeLine O qy idx true es l =
+      (lineEnvs qy idx false l).bind (fun envs =>
+        (executeLine.go O q envs es.agg none).bind (fun p => .ok (updateLimit false q.limit { es with agg := p.1 } p.2))) :=
+  executeLine_follow_join O qy q idx es l hq hadm
+
+/-- **follow-mode refinement with joins**: starting from a follow-mode state similar to the batch-mode state after the same
+rows, the refresh for a line with partner rows `envs` is exactly the concatenation (`extendAll`) of the tables a batch run
+would show after each admitted partner row (`tablesAfter`: update only, then the table of `execute_result` at that point),
+and the states stay similar. Hence with at most one admitted partner the refresh IS the batch table over everything fed so
+far (C11 holds); with several partners it is that table preceded by the intermediate ones — finding D61. -/
+theorem follow_join_refresh_is_table_per_partner {O : Oracles} {q : AggStmt} (envs : List (Env × List String))
+    {sf sb sf' sb' : AggState} {S K : List (List Value)} (h : Sim2 q sf sb S) (hS : ∀ k ∈ S, k ∈ K)
+    (hK : ∀ k ∈ groupKeysOf O q (envs.map (·.1)), k ∈ K) (hex : KeysExact K)
+    {acc r : Option RowOut} {ts : List RowOut}
+    (hf : executeLine.go O q envs sf acc = .ok (sf', r)) (hb : tablesAfter O q (envs.map (·.1)) sb = .ok (sb', ts)) :
+    r = extendAll acc ts ∧ ∃ S', Sim2 q sf' sb' S' ∧ ∀ k ∈ S', k ∈ K :=
+  go_tables envs h hS hK hex hf hb
+
+/-! ### negation witnesses of the two open findings of this property -/
+
+/-- **D60** (why "exact keys" cannot be dropped from `follow_eq_batch_prefix`): GROUP BY over the REAL keys `0.0` and
+`-0.0` (one group: they are equal in the value order). Rows (0.0, NULL, 1), (-0.0, 1, NULL), statement
+`SELECT r, COUNT(v), PERCENTILE(w, p) … GROUP BY r`, any p: fed incrementally, the table after the second row shows the
+key `0.0` (the refresh after row one published the percentile and thereby created the group's entry under `0.0`); a batch
+run over both rows shows `-0.0` (the entry is created by COUNT(v) of row two). The harness witness D60 shows the same on
+the implementation. -/
+theorem d60_follow_and_batch_show_different_key_representatives (p : Nat) :
+    ∃ sf sf1 sf2 out sb outb,
+      followRun {} (d60Stmt p) [rowRVW 0 .null (.int 1)] {} = .ok sf ∧
+      aggUpdateRow {} (d60Stmt p) sf (rowRVW (2^63) (.int 1) .null) = .ok (sf1, true) ∧
+      aggResult {} (d60Stmt p) sf1 = .ok (sf2, out) ∧
+      aggRun {} (d60Stmt p) [rowRVW 0 .null (.int 1), rowRVW (2^63) (.int 1) .null] {} = .ok sb ∧
+      finalResult {} (d60Stmt p) { agg := sb } = .ok outb ∧
+      out.rows = [[.real 0, .int 1, .int 1]] ∧ outb.rows = [[.real (2^63), .int 1, .int 1]] := by
+  refine ⟨{ aggs := (st1 p).aggs, vals := [([.real 0], [(2, .int 1)])] }, st2f p, st2f p,
+    { columns := ["r", "count1", "percentile2"], rows := [[.real 0, .int 1, .int 1]] }, st2b p,
+    { columns := ["r", "count1", "percentile2"], rows := [[.real (2^63), .int 1, .int 1]] }, ?_, rfl, ?_, rfl, ?_, rfl, rfl⟩
+  · have h1 : aggUpdateRow {} (d60Stmt p) {} (rowRVW 0 .null (.int 1)) = .ok (st1 p, true) := rfl
+    simp only [followRun, followStep, h1, Outcome.bind, if_true]
+    rw [aggResult_eq, pub_1]
+    rfl
+  · rw [aggResult_eq, pub_f]
+    rfl
+  · simp only [finalResult, bind, Outcome.bind]
+    rw [aggResult_eq, pub_b]
+    rfl
+
+/-- **D61**: follow mode, aggregate over a JOIN. `SELECT COUNT(*) FROM a INNER JOIN b ON a.k = b.k`, the joined file has two
+rows with key 1, one input line with key 1: the refresh for that line shows the rows `1` and `2` (one full table per join
+partner, concatenated), a batch run over the same line shows the one row `2`. The harness witness D61 shows the same on the
+implementation. -/
+theorem d61_follow_join_shows_a_table_per_partner :
+    (∃ es lo, executeLine {} d61Query d61Index true {} d61Line = .ok (es, lo) ∧
+      lo.result = some { columns := ["count0"], rows := [[.int 1], [.int 2]] }) ∧
+    (∃ es lo, executeLine {} d61Query d61Index false {} d61Line = .ok (es, lo) ∧
+      finalResult {} exCountQ es = .ok { columns := ["count0"], rows := [[.int 2]] }) :=
+  ⟨⟨_, _, rfl, rfl⟩, ⟨_, _, rfl, rfl⟩⟩
 /-- `SELECT COUNT(*) FROM t` -/
 def exCount : AggStmt :=
   { items := [{ name := "count0", kind := .count none false, transform := none }], filter := none, groupBy := none,
@@ -225,5 +359,32 @@ example : KeysExact (groupKeysOf {} exCount ([({} : Env)] ++ [({} : Env)])) := b
   simp [groupKeysOf, keyOf, exCount] at ha hb
   rw [ha, hb]
 example : finalResult {} exCount { agg := (publishPercentiles (publishPercentiles {})) } = finalResult {} exCount {} := rfl
+
+/-- non-vacuity over the executed loops: `SELECT COUNT(*) FROM a WHERE k = 1` on a shown line, a line WHERE rejects and a
+line that is not admitted. Follow mode prints one table (`1`) for the first line and nothing for the other two; the batch
+runs over 1, 2 and 3 lines all print `1`. -/
+example :
+    runFollowAll {} exWhereQuery none [exLineShown] = { printed := ["count0: 1"], totalLines := 1 } ∧
+    runFollowAll {} exWhereQuery none [exLineShown, exLineRejected] = { printed := ["count0: 1"], totalLines := 2 } ∧
+    runFollowAll {} exWhereQuery none [exLineShown, exLineRejected, exLineNotAdmitted] =
+      { printed := ["count0: 1"], totalLines := 3 } ∧
+    runBatch {} exWhereQuery [] [asFile [exLineShown, exLineRejected, exLineNotAdmitted]] none =
+      { printed := ["count0: 1"], totalLines := 3 } ∧
+    runFollowAll {} exWhereQuery none [exLineShown, exLineShown] = { printed := ["count0: 1", "count0: 2"], totalLines := 2 } ∧
+    runBatch {} exWhereQuery [] [asFile [exLineShown, exLineShown]] none = { printed := ["count0: 2"], totalLines := 2 } := by
+  refine ⟨?_, ?_, ?_, ?_, ?_, ?_⟩ <;> rfl
+example : lineShown {} exWhereQuery exWhereStmt exLineShown ∧ ¬ lineShown {} exWhereQuery exWhereStmt exLineRejected ∧
+    ¬ lineShown {} exWhereQuery exWhereStmt exLineNotAdmitted := by
+  refine ⟨⟨rfl, rfl⟩, fun h => ?_, fun h => ?_⟩
+  · exact absurd h.2 (by decide)
+  · exact absurd h.1 (by decide)
+/-- the hypotheses of `follow_kth_line_eq_batch_prefix` hold on that input (k = 2: the rejected line) -/
+example : hasFailed (runFollowAll {} exWhereQuery none ([exLineShown] ++ [exLineRejected])) = false ∧
+    hasFailed (runBatch {} exWhereQuery [] [asFile ([exLineShown] ++ [exLineRejected])] none) = false ∧
+    KeysExact (groupKeysOf {} exWhereStmt (followEnvs exWhereQuery.table ([exLineShown] ++ [exLineRejected]))) := by
+  refine ⟨by decide, by decide, ?_⟩
+  intro a ha b hb _
+  simp [groupKeysOf, keyOf, exWhereStmt, followEnvs, asFile, envsOf] at ha hb
+  rw [← ha.2, ← hb.2]
 
 end Sqlgrep.Props.C11
